@@ -169,7 +169,12 @@ func runDKGCallers(t *testing.T, rc *RunCtx) {
 	base, _ := strconv.ParseUint(rc.Param("_seed_base", "0"), 10, 64)
 	idx := int(rc.Seed-base)*workers + worker
 	if idx >= len(table) {
-		// Beyond the table: random generations whose contributions feed the share-ownership monitor.
+		// Beyond the table: random generations whose contributions feed the share-ownership monitor, and (a third)
+		// several callers' messages in flight at one instance at the same time.
+		if rc.Ch.Pick(3, 0) == 2 {
+			runDKGCallersConcurrent(t, rc)
+			return
+		}
 		runDKGOwnership(t, rc)
 		return
 	}
@@ -384,6 +389,122 @@ func runDKGCallers(t *testing.T, rc *RunCtx) {
 	}
 	rc.Stats.Inc("legit_continuations_ok", 1)
 	c.CheckShareOwnership(0)
+}
+
+// runDKGCallersConcurrent: 2-4 messages of different callers (participants, a configured peer outside the generation,
+// ordinary clients, unknown and look-alike names) for one account are in flight at one instance at the same time, under
+// the seeded scheduler.  Whoever else is being served at that instant, a non-peer is refused and gets no share, and a
+// participant's contribution is answered with the share computed for that participant and nobody else's.
+func runDKGCallersConcurrent(t *testing.T, rc *RunCtx) {
+	ch := rc.Ch
+	s := NewSched(rc, SchedCfg{StayBias: []float64{0, 0.3, 0.6}[ch.Pick(3, 0)], MaxSteps: 20000})
+	defer s.Close()
+	c := NewCluster(t, rc, s, ClusterCfg{IDs: []uint64{1, 2, 3, 4}, Timeout: 70 * time.Second, Perms: FullPermissions("client1", "SIGNER-02", "signer-02x")})
+	defer c.Close()
+	co := &coordinator{c: c}
+	parts := []*Node{c.Nodes[0], c.Nodes[1], c.Nodes[3]}
+	outsider := c.Nodes[2]
+	target := parts[1]
+	legit := parts[0].Name
+	acct := "Wallet 3/acct16c"
+	const th = 2
+	for _, p := range parts {
+		if err := co.prepare(p, legit, acct, th, parts); err != nil {
+			rc.Violate("HARNESS", "setup-failed", err.Error(), 0)
+			return
+		}
+	}
+	type caller struct {
+		name   string
+		id     uint64 // participant id (0 = not a participant)
+		isPeer bool
+	}
+	pool := []caller{{parts[0].Name, parts[0].ID, true}, {parts[2].Name, parts[2].ID, true}, {outsider.Name, 0, true},
+		{"client1", 0, false}, {"", 0, false}, {"nobody", 0, false}, {"SIGNER-02", 0, false}, {"signer-02x", 0, false}, {"signer-01.", 0, false}}
+	k := 2 + ch.Pick(3, 0)
+	type result struct {
+		who  caller
+		msg  string
+		err  error
+		cres *pb.ContributeResponse
+	}
+	res := make([]result, k)
+	hasPeer, hasNon := false, false
+	for i := 0; i < k; i++ {
+		who := pool[ch.Pick(len(pool), 0)]
+		if i == 0 {
+			who = pool[ch.Pick(2, 0)] // a genuine participant is always among them
+		}
+		if i == 1 {
+			who = pool[3+ch.Pick(len(pool)-3, 0)] // and so is somebody who is not a peer
+		}
+		msg := "contribute"
+		if !who.isPeer && ch.Pick(4, 0) == 3 {
+			msg = []string{"abort", "commit", "execute"}[ch.Pick(3, 0)]
+		}
+		res[i] = result{who: who, msg: msg}
+		hasPeer = hasPeer || who.id != 0
+		hasNon = hasNon || !who.isPeer
+		i := i
+		s.Spawn(msg+" as "+who.name, target.Inst, func(_ *Task) {
+			switch msg {
+			case "contribute":
+				sec, vv := maliciousContribution(target.ID, th)
+				res[i].cres, res[i].err = co.contribute(target, who.name, acct, sec, vv)
+			case "abort":
+				res[i].err = co.abort(target, who.name, acct)
+			case "commit":
+				_, res[i].err = co.commit(target, who.name, acct)
+			case "execute":
+				res[i].err = co.execute(target, who.name, acct)
+			}
+		})
+	}
+	if o := s.Run(); o != "done" {
+		rc.Truncated = o == "truncated"
+		return
+	}
+	if p := c.anyPanic(); p != "" {
+		rc.Violate("C16", "panic", p, s.Step)
+		return
+	}
+	var desc []string
+	for _, r := range res {
+		desc = append(desc, fmt.Sprintf("%s as %q -> err=%v", r.msg, r.who.name, r.err))
+	}
+	rc.Logf("simultaneous callers at %s: %v", target.Name, desc)
+	rc.Stats.Inc("concurrent_caller_phases", 1)
+	rc.Stats.Seen("cases", fmt.Sprintf("concurrent-callers/%v", desc))
+	rc.Sample = map[string]any{"layer": "simultaneous callers at one instance", "callers": desc}
+	for _, r := range res {
+		switch {
+		case !r.who.isPeer:
+			rc.Stats.Inc("concurrent_non_peer_messages", 1)
+			if r.err == nil {
+				rc.Violate("C16", "non-peer-message-honoured", fmt.Sprintf("with %d messages in flight at once (%v): %s from caller %q (not a configured peer) was accepted", k, desc, r.msg, r.who.name), s.Step)
+				return
+			}
+			if r.cres != nil && len(r.cres.GetSecret()) > 0 {
+				rc.Violate("C16", "share-disclosed-to-non-peer", fmt.Sprintf("with %d messages in flight at once (%v): caller %q got a secret share", k, desc, r.who.name), s.Step)
+				return
+			}
+		case r.msg == "contribute" && r.err == nil && r.cres != nil:
+			pk := pubOfSecret(r.cres.GetSecret())
+			if r.who.id != 0 {
+				rc.Stats.Inc("concurrent_peer_replies_checked", 1)
+				if !bytes.Equal(pk, evalAt(r.cres.GetVerificationVector(), r.who.id)) {
+					rc.Violate("C16", "share-not-for-recipient", fmt.Sprintf("with %d messages in flight at once (%v): the reply to participant %d does not carry the share computed for its id", k, desc, r.who.id), s.Step)
+					return
+				}
+			}
+			for _, n := range parts {
+				if n.ID != r.who.id && bytes.Equal(pk, evalAt(r.cres.GetVerificationVector(), n.ID)) {
+					rc.Violate("C16", "share-of-another-participant", fmt.Sprintf("with %d messages in flight at once (%v): the reply to %q carries the share of participant %d", k, desc, r.who.name, n.ID), s.Step)
+					return
+				}
+			}
+		}
+	}
 }
 
 // runDKGOwnership runs a fault-free generation with drawn ids and checks share ownership of every contribution.
